@@ -100,12 +100,75 @@ def vi_case(rng):
     return c
 
 
+def fam_case(rng):
+    """the built-in variational families with a reparameterised site: per scripted noise eps the
+    draw is mean + chol @ eps, and the ELBO / its directional derivative follow (conjugate
+    linear-Gaussian target  x ~ N(0, I), y ~ N(w.x, 1))"""
+    import math
+    import types
+    from genjax import multivariate_normal, normal
+    from genjax.adev import Dual
+    from genjax.inference.vi import full_covariance_normal_family, mean_field_normal_family
+    nd = rng.choice([2, 2, 3])
+    full = rng.random() < 0.7
+    eps = [rng.choice([-1.5, -1.0, -0.5, 0.5, 1.0, 2.0]) for _ in range(nd)]
+    w = [rng.choice([-1.0, 0.5, 1.0, 2.0]) for _ in range(nd)]
+    y = rng.choice([-1.0, 0.5, 2.0])
+    m = [rng.choice([-1.0, 0.0, 0.5, 1.0]) for _ in range(nd)]
+    dm = [rng.choice([0.0, 1.0, -0.5]) for _ in range(nd)]
+    dk = [rng.choice([-1, 0, 1]) for _ in range(nd)]          # diagonal 2^k
+    C = [[0.0] * nd for _ in range(nd)]
+    dC = [[0.0] * nd for _ in range(nd)]
+    for i in range(nd):
+        C[i][i] = 2.0 ** dk[i]
+        dC[i][i] = rng.choice([0.0, 0.5, 1.0])
+        if full:
+            for j in range(i):
+                C[i][j] = rng.choice([-1.0, -0.5, 0.5, 1.0, 0.0])
+                dC[i][j] = rng.choice([0.0, 1.0, -0.5])
+    c = {"kind": "fam", "full": full, "nd": nd, "eps": eps, "w": w, "y": y, "m": m, "dm": dm}
+    saved = adev.multivariate_normal
+    try:
+        adev.multivariate_normal = types.SimpleNamespace(
+            sample=lambda loc, cov: jnp.asarray(eps, dtype=jnp.float32), logpdf=saved.logpdf)
+        wv = jnp.asarray(w, dtype=jnp.float32)
+
+        @gen
+        def target():
+            x = multivariate_normal(jnp.zeros(nd), jnp.eye(nd)) @ "x"
+            return normal(jnp.sum(wv * x), 1.0) @ "y"
+        cons = {"y": jnp.float32(y)}
+        if full:
+            el = elbo_factory(target, full_covariance_normal_family(nd, "reparam"), cons, ())
+            prim = {"mean": jnp.asarray(m, dtype=jnp.float32), "chol_cov": jnp.asarray(C, dtype=jnp.float32)}
+            tang = {"mean": jnp.asarray(dm, dtype=jnp.float32), "chol_cov": jnp.asarray(dC, dtype=jnp.float32)}
+            d = el.jvp_estimate(jax.tree.map(Dual, prim, tang))
+        else:
+            el = elbo_factory(target, mean_field_normal_family(nd, "reparam"), cons, ())
+            # params = [means, log_stds]; d std = std * d log_std
+            dls = [dC[i][i] for i in range(nd)]
+            for i in range(nd):
+                dC[i][i] = C[i][i] * dls[i]
+            prim = jnp.asarray(m + [dk[i] * math.log(2.0) for i in range(nd)], dtype=jnp.float32)
+            tang = jnp.asarray(dm + dls, dtype=jnp.float32)
+            d = el.jvp_estimate(Dual(prim, tang))
+        c["C"], c["dC"] = C, dC
+        # remove the transcendental constants: + (1/2) ln 2 pi - sum_i ln C_ii
+        c["p"] = fr(float(d.primal) + 0.5 * math.log(2 * math.pi) - sum(dk) * math.log(2.0))
+        c["t"] = fr(float(d.tangent))
+    except Exception as e:  # noqa: BLE001
+        c["err"] = type(e).__name__ + ": " + str(e)[:200]
+    finally:
+        adev.multivariate_normal = saved
+    return c
+
+
 def main():
     out, sd, n = sys.argv[1], int(sys.argv[2]), int(sys.argv[3])
     rng = random.Random(sd)
     cases = []
     for i in range(n):
-        cases.append(elbo_case(rng) if i % 3 != 2 else vi_case(rng))
+        cases.append(fam_case(rng) if i % 4 == 3 else elbo_case(rng) if i % 3 != 2 else vi_case(rng))
     json.dump(cases, open(out, "w"))
 
 
